@@ -8,7 +8,7 @@ post-condition: a normal return (without ignore_feedback) means exactly the
 data is at exactly the value's locations, nothing else changed and a lockable
 bank is locked again; a refused value sends nothing; every other outcome is
 one of the documented exceptions."""
-from common import InfraError
+from common import InfraError, hot_addr
 from props._devmem_lockstep import LockStep, judge
 from props import _devmem_memunit as mu
 
@@ -189,7 +189,7 @@ def _correspond(ctx, corr, rng, T, ls):
                 if not writable and (short or ln not in (nloc, nloc + 1)):
                     continue
                 arg = rng.choice(["g", "d", "i"])
-                a = rng.randrange(64)
+                a = hot_addr(rng)
                 u = mu.mk_unit(b, rng, kind="random", dev=(arg == "d"), addr=a,
                                lockByte=rng.choice([0xFF, 0xFF, 0x55, 0xAA, 0x13]))
                 raw = [rng.choice([0, 0xFF, rng.randrange(256)]) for _ in range(ln)]
@@ -256,7 +256,7 @@ def _correspond(ctx, corr, rng, T, ls):
         for fu in (None, True):
             for rep in range(2 if T else 1):
                 arg = rng.choice(["g", "d"])
-                a = rng.randrange(64)
+                a = hot_addr(rng)
                 u = mu.mk_unit(b, rng, kind="random", dev=(arg == "d"), addr=a,
                                lockByte=rng.choice([0xFF, 0xFF, 0x55, 0xAA, 0x13]))
                 raw = []
@@ -295,7 +295,7 @@ def _correspond(ctx, corr, rng, T, ls):
             cands += [bytes(nloc), True, 0]
         for pv in cands:
             arg = rng.choice(["g", "d"])
-            a = rng.randrange(64)
+            a = hot_addr(rng)
             u = mu.mk_unit(b, rng, kind="random", dev=(arg == "d"), addr=a)
             sc = {"unit": u, "call": {"kind": "write", "arg": arg, "a": a, "value": vk, "pyvalue": pv}}
             end, trace = one(ls, corr, suite, sc, "write")
